@@ -401,6 +401,13 @@ func c10GenCase(r *u.Rng) *c10Case {
 	case 1:
 		c.plans = []quic.InitialPacketPlan{{CryptoLength: r.Range(1, 1000), PacketSize: c.maxSize}, {PacketSize: int(r.Pick(0, 1200, int64(c.maxSize)))}}
 	}
+	// keep the flight short enough to print (the last plan entry repeats; long flights have
+	// their own fixed cases): at most about 40 datagrams
+	for _, p := range c.plans {
+		if p.CryptoLength > 0 && len(c.hello) > 40*p.CryptoLength {
+			c.hello = c.hello[:40*p.CryptoLength]
+		}
+	}
 	// builder
 	rnd := func() *quic.QUICRandomFrames {
 		return &quic.QUICRandomFrames{MinPING: uint8(r.Range(0, 2)), MaxPING: uint8(r.Range(2, 5)), MinCRYPTO: uint8(r.Range(1, 3)), MaxCRYPTO: uint8(r.Range(3, 9)),
@@ -524,7 +531,7 @@ func c10RunCase(w *bufio.Writer, rep *c10Reporter, c *c10Case, dist map[string]i
 		confStore = &c10FixedTokenStore{c.conf}
 	}
 	info, dgs := quic.VerifUPackerFlight(quic.VerifUPackerCfg{Spec: sp, DestConnID: c.dcid, SrcConnID: c.scid, Hello: c.hello,
-		MaxSize: c.maxSize, ConfStore: confStore, Version: c.ver(), MaxCalls: 10, FirstPNOffset: c.pnOffset})
+		MaxSize: c.maxSize, ConfStore: confStore, Version: c.ver(), MaxCalls: c10MaxCalls, FirstPNOffset: c.pnOffset})
 	if info.SetupPanic != "" {
 		rep.fail("upacker/panic", "setting up / packing the flight panicked: "+info.SetupPanic, c.String())
 		return
@@ -562,7 +569,7 @@ func c10RunCase(w *bufio.Writer, rep *c10Reporter, c *c10Case, dist map[string]i
 		}
 	}
 	errored := len(dgs) > 0 && dgs[len(dgs)-1].Err != ""
-	e.Truncated = errored || len(dgs) >= 10
+	e.Truncated = errored || len(dgs) >= c10MaxCalls
 	var fails []c10Fail
 	var pkts []*c10Pkt
 	if len(raw) > 0 || !errored {
@@ -740,6 +747,10 @@ func c10RunCase(w *bufio.Writer, rep *c10Reporter, c *c10Case, dist map[string]i
 	}
 }
 
+// c10MaxCalls: far above any flight (a datagram carries at least one CRYPTO byte and the
+// generated ClientHellos have at most 4000 bytes): the unit never cuts a flight short.
+const c10MaxCalls = 5000
+
 func c10Thorough() int {
 	if os.Getenv("VERIF_TIER") == "thorough" {
 		return 1
@@ -850,6 +861,17 @@ func c10Targeted(r *u.Rng) []*c10Case {
 		c.desc = fmt.Sprintf(" [targeted: token length %d, prefix of %d bytes]", tp[0], tp[1])
 		out = append(out, c)
 	}
+	// (k) long flights: no bound on the number of Initial datagrams (17 and 120 datagrams)
+	c = base()
+	c.plans = []quic.InitialPacketPlan{{CryptoLength: 100, PacketSize: 1200}}
+	c.desc = " [targeted: 17 datagrams]"
+	out = append(out, c)
+	c = base()
+	c.hello = c10Hello(r, 1200)
+	c.lens, c.single = []int{1, 2, 1}, 0
+	c.plans = []quic.InitialPacketPlan{{CryptoLength: 10}}
+	c.desc = " [targeted: 120 datagrams]"
+	out = append(out, c)
 	// (i) CryptoLength at every varint width of the write offset
 	for _, cl := range []int{1, 63, 64, 1100} {
 		c = base()
